@@ -65,11 +65,16 @@ def run(ctx):
         raise AnalysisError("R4.1 anchor: the duplicate scan no longer compares neighbours with ==")
     # the producer of the sorted view
     producers = []
+    true_params = set()       # boolean parameters the scan switches on in the producer (e.g. canonical=True)
     for c in walk_no_nested(dup.node):
         if isinstance(c, ast.Call) and isinstance(c.func, ast.Attribute):
             for k, t in cg.resolve_call(c, dup):
                 if k in ("precise", "name") and t.cls is not None and t.cls.name == "HedGroup":
                     producers.append(t)
+                    for pn in t.params()[1:]:
+                        a_ = cg.arg(c, pn)
+                        if isinstance(a_, ast.Constant) and a_.value is True:
+                            true_params.add(pn)
     if not producers:
         raise AnalysisError("R4.1 anchor: producer of the sorted view not found")
     prod = producers[0]
@@ -87,6 +92,35 @@ def run(ctx):
     eq = tag.methods.get("__eq__")
     folds = eq is not None and any(isinstance(c, ast.Call) and call_name(c) in ("casefold", "lower") for c in ast.walk(eq.node))
     sorts = [c for c in walk_no_nested(prod.node) if isinstance(c, ast.Call) and call_name(c) in ("sort", "sorted")]
+    # orderings that are switched off by the arguments the scan passes are not the ones it sees
+    vprod = view(ctx, prod)
+    live_sorts = []
+    for c in sorts:
+        n_ = vprod.node(c)
+        off = False
+        if n_ is not None:
+            for cond in vprod.conds(lambda t: isinstance(t, ast.Name) and t.id in prod.params()
+                                    or (isinstance(t, ast.UnaryOp) and isinstance(t.op, ast.Not) and isinstance(t.operand, ast.Name)
+                                        and t.operand.id in prod.params())):
+                pn = cond.ast.id if isinstance(cond.ast, ast.Name) else cond.ast.operand.id
+                val = pn in true_params
+                if isinstance(cond.ast, ast.UnaryOp):
+                    val = not val
+                if vprod.edge_guards(cond, not val, n_):
+                    off = True
+        if not off:
+            live_sorts.append(c)
+    # the recursion must hand the switch on
+    for pn in sorted(true_params):
+        recs = [c for c in walk_no_nested(prod.node) if isinstance(c, ast.Call) and call_name(c) == prod.name]
+        for c in recs:
+            a_ = cg.arg(c, pn)
+            if a_ is None and len(c.args) >= prod.params().index(pn):
+                a_ = c.args[prod.params().index(pn) - 1]
+            ctx.check(isinstance(a_, ast.Name) and a_.id == pn, "R4.1", prod.qualname, c, loc(prod, c),
+                      "the recursive call does not hand `%s` on: sub-groups are ordered in the other order, so equal sub-groups "
+                      "written differently need not become neighbours" % pn, desc="recursion forwards `%s`" % pn)
+    sorts = live_sorts
     ctx.floor("R4.1", "orderings in the sorted-view producer", len(sorts), 1)
     for c in sorts:
         kf = key_functions(prod, c)
